@@ -226,6 +226,19 @@ pub fn follow_ups(v: &CVal, aad: &[u8], detached: &[u8], heavy: bool) -> Vec<(St
                 let _ = l.cmp_canonical(l);
             });
         }
+        CVal::ProtMap(p) => {
+            // a protected header decoded on its own, handed to the three structure functions
+            run("sig_structure_data(decoded ProtectedHeader)", &mut || {
+                let _ = coset::sig_structure_data(coset::SignatureContext::CoseSign1, p.clone(), None, aad, detached);
+                let _ = coset::sig_structure_data(coset::SignatureContext::CoseSignature, coset::ProtectedHeader::default(), Some(p.clone()), aad, detached);
+            });
+            run("mac_structure_data(decoded ProtectedHeader)", &mut || {
+                let _ = coset::mac_structure_data(coset::MacContext::CoseMac0, p.clone(), aad, detached);
+            });
+            run("enc_structure_data(decoded ProtectedHeader)", &mut || {
+                let _ = coset::enc_structure_data(coset::EncryptionContext::CoseEncrypt0, p.clone(), aad);
+            });
+        }
         CVal::Header(h) => {
             for cs in h.counter_signatures.iter().take(3) {
                 run("sig_structure_data(CounterSignature)", &mut || {
